@@ -8,4 +8,4 @@ tag=$(basename "$(dirname "$patch")")
 VERIF_REPO=$wt VERIF_NPROC=${VERIF_NPROC:-6} ./check $pid --tier $tier --no-evidence "$@" > /tmp/seedwt_${tag}_${pid}.log 2>&1
 rc=$?
 git -C "$wt" checkout -q -- .
-echo "seed=$tag check=$pid tier=$tier exit=$rc $(grep -c '^VIOLATION' /tmp/seedwt_${tag}_${pid}.log) violation lines; $(grep -m1 '^VIOLATION\|INCONCLUSIVE' /tmp/seedwt_${tag}_${pid}.log | cut -c1-260)"
+echo "seed=$tag check=$pid tier=$tier exit=$rc $(grep -c '^VIOLATION' /tmp/seedwt_${tag}_${pid}.log) violation lines; $(grep -m1 -A1 '^VIOLATION\|INCONCLUSIVE' /tmp/seedwt_${tag}_${pid}.log | tr '\n' ' ' | cut -c1-330)"
